@@ -13,7 +13,7 @@ def run(ctx):
         # volume: one connection, > 2048 requests outstanding at once (every backend stream id in use, exhaustion crossed),
         # one heartbeat answered after the proxy gave up on it
         ("volume-stall-1x1", ["-random", n(2150, 2300), "-nodes", "1", "-numconns", "1", "-clients", "3", "-workers", n(717, 767), "-round", "2400",
-                              "-stall", "2200", "-hold", "2600", "-okbias", "8", "-nodrops"], False),
+                              "-stall", "3600", "-hold", "4200", "-okbias", "8", "-nodrops"], False),
         # every write is re-encoded by the consistency override: pipelined and retried requests must still carry their own bodies
         ("override-3x1", ["-random", n(600, 4000), "-nodes", "3", "-numconns", "1", "-clients", "4", "-workers", "8", "-round", "300", "-delay", "4",
                           "-override", "-okbias", "2", "-nodrops"], False),
